@@ -285,6 +285,47 @@ func scanInDeg(c *core.Ctx) []ob {
 			ps = append(ps, p)
 		}
 		sort.Slice(ps, func(i, j int) bool { return ps[i].Name() < ps[j].Name() })
+		var paramAccounted func(fn *types.Func, v *types.Var, depth int) bool
+		paramAccounted = func(fn *types.Func, v *types.Var, depth int) bool {
+			if depth > 3 || len(callers[fn]) == 0 {
+				return false
+			}
+			fsig := fn.Type().(*types.Signature)
+			idx := -1
+			for i := 0; i < fsig.Params().Len(); i++ {
+				if fsig.Params().At(i) == v {
+					idx = i
+				}
+			}
+			if idx < 0 {
+				return false
+			}
+			for _, cs := range callers[fn] {
+				if idx >= len(cs.call.Args) {
+					return false
+				}
+				info := cs.d.pk.TypesInfo
+				ao := identObj(info, cs.call.Args[idx])
+				if ao == nil {
+					continue
+				}
+				av, isVar := ao.(*types.Var)
+				if !isVar {
+					return false
+				}
+				if cd := fns[cs.d.fn]; cd != nil && (handled[cd][av] || cd.aware[av]) {
+					continue
+				}
+				if degreeGuarded(info, cs.d.fd, ao) || !isParamOf(cs.d.fn, av) {
+					continue
+				}
+				if (!cs.d.fn.Exported() || !recvExported(cs.d.fn)) && paramAccounted(cs.d.fn, av, depth+1) {
+					continue
+				}
+				return false
+			}
+			return true
+		}
 		for _, p := range ps {
 			n++
 			key := fmt.Sprintf("INDEG:%s#%s", d.key, p.Name())
@@ -323,6 +364,10 @@ func scanInDeg(c *core.Ctx) []ob {
 							}
 							if !ok && !isParamOf(cs.d.fn, v) {
 								ok = true // a local the caller built (known shape)
+							}
+							// the caller is itself an unexported helper that hands its own parameter on: its callers decide
+							if !ok && isParamOf(cs.d.fn, v) && (!cs.d.fn.Exported() || !recvExported(cs.d.fn)) {
+								ok = paramAccounted(cs.d.fn, v, 0)
 							}
 						}
 					} else {
